@@ -584,6 +584,34 @@ def check_add_to_cqm(ctx, r, lines, expect, meta):
             if b0.num_variables == 0:
                 continue
             lines.append(line); expect.append(obs); meta.append(site); ctx.tick(site + ' source bits')
+            lines.append(line.replace('addcqm', 'hadd')); expect.append(obs); meta.append(site)
+        # further ways a model reaches a CQM, against the heap model: comparison with copy=False (moved), set_objective and
+        # from_quadratic_model (copied INTO the CQM's own objective: the source is never written)
+        for site, line, code, held_src in [
+            ('ConstrainedQuadraticModel.add_constraint(comparison, copy=False)', 'hadd comparison 0 -', "m.add_constraint(b <= 1, label='c0', copy=False)", "m.constraints['c0'].lhs"),
+            ('ConstrainedQuadraticModel.add_constraint(comparison, copy=True)', 'hadd comparison 1 -', "m.add_constraint(b <= 1, label='c0', copy=True)", "m.constraints['c0'].lhs"),
+            ('ConstrainedQuadraticModel.set_objective', 'hadd objective - 0', 'm.set_objective(b)', 'm.objective'),
+            ('ConstrainedQuadraticModel.from_quadratic_model', 'hadd fromqm - 0', 'm = dimod.ConstrainedQuadraticModel.from_quadratic_model(b)', 'm.objective'),
+        ]:
+            env = fresh(src, 'b0 = copy.deepcopy(b)\nm = dimod.ConstrainedQuadraticModel()\n' + code)
+            b, b0 = env['b'], env['b0']
+            if b0.num_variables == 0:
+                continue
+            held = eval(held_src, env)
+            obs = (f"ok source_unchanged={int(snap(b) == snap(b0))} source_cleared={int(b.num_variables == 0 and b.offset == 0)} "
+                   f"constraint_holds_data={int(snap(held)[2:] == snap(b0)[2:])}")
+            lines.append(line); expect.append(obs); meta.append(site); ctx.tick(site + ' source bits')
+            if 'copy=False' not in site and snap(b) != snap(b0):
+                ctx.fail('property', site, 'source model changed by the call', f'{snap(b0)!r} -> {snap(b)!r}',
+                         repro=PRE + src + '\nw = snap(b)\nm = dimod.ConstrainedQuadraticModel()\n' + code + '\nassert snap(b) == w', detail=dict(source=src, call=code))
+    else:
+        # an object-dtype model: set_objective converts it to a temporary first; the caller's model is never written
+        env = fresh(src, 'b0 = copy.deepcopy(b)\nm = dimod.ConstrainedQuadraticModel()\nm.set_objective(b)')
+        b, b0 = env['b'], env['b0']
+        if b0.num_variables:
+            site = 'ConstrainedQuadraticModel.set_objective(object dtype)'
+            lines.append('hadd objective - 1'); meta.append(site); ctx.tick(site + ' source bits')
+            expect.append(f"ok source_unchanged={int(snap(b) == snap(b0))} source_cleared=0 constraint_holds_data={int(snap(env['m'].objective)[2:] == snap(b0)[2:])}")
     # add_discrete(comparison, copy, check_overlaps): the two options must reach the callee as given
     dsrc = "q = dimod.Binary('dA') + dimod.Binary('dB') + dimod.Binary('dC')"
     for cp in (True,):
@@ -606,6 +634,8 @@ def check_add_to_cqm(ctx, r, lines, expect, meta):
                     continue
                 held = m.constraints['d0'].lhs
                 lines.append(f'addcqm discrete {int(cp)} {int(co)}')
+                expect.append(f"ok source_unchanged=1 source_cleared=0 constraint_holds_data={int(snap(held)[2:] == snap(q0)[2:])}"); meta.append(site)
+                lines.append(f'hadd discrete {int(cp)} {int(co)}')
                 expect.append(f"ok source_unchanged=1 source_cleared=0 constraint_holds_data={int(snap(held)[2:] == snap(q0)[2:])}"); meta.append(site)
 
 
@@ -665,6 +695,19 @@ def run(ctx):
                         lines.append('mcall ' + call)
                         expect.append(f'ok data={int(handle(res) is handle(m))} variables={int(res.variables is m.variables)} receiver_unchanged=1')
                         meta.append(site)
+                        # the same call on the heap model (cy object / C++ model / Variables cells, `DimodModel/Heap.lean`)
+                        hcall = {'__add__(model)': 'addmodel', '__sub__(model)': 'submodel', '__mul__(model)': 'mulmodel'}.get(name, call)
+                        if kind == 'bqm' and name in ('__add__(model)', '__sub__(model)') and isinstance(res, dimod.QuadraticModel):
+                            hcall = 'addpromote'
+                        lines.append('hcall ' + hcall); ctx.tick('heap model: ' + hcall.split()[0])
+                        expect.append(f'ok data={int(handle(res) is handle(m))} variables={int(res.variables is m.variables)} receiver_unchanged=1')
+                        meta.append(site)
+                if env is not None and 'res' in env and kind == 'cqm' and isinstance(env['res'], dimod.ConstrainedQuadraticModel):
+                    m, res = env['m'], env['res']
+                    hop = ('deepcopy' if name in ('copy()', 'copy.deepcopy') else 'fixvariablescopy' if name.startswith('fix_variables(') else 'inplacefalse')
+                    lines.append('hcqm ' + hop); ctx.tick('heap model: cqm ' + hop)
+                    expect.append(f'ok variables={int(res.variables is m.variables)} clabels={int(res.constraint_labels is m.constraint_labels)} shared=0 receiver_unchanged=1')
+                    meta.append(site)
         check_views(ctx, r, lines, expect, meta)
         check_add_to_cqm(ctx, r, lines, expect, meta)
         check_variables(ctx, r)
